@@ -2192,3 +2192,7 @@ mod tests {
         assert!(Value::from(1_i64) < huge);
     }
 }
+
+#[cfg(kani)]
+#[path = "/verif/kani/value_mod.rs"]
+mod verif_kani;
